@@ -93,14 +93,17 @@ Qed.
 (* ------------------------------------------------------------------------------------------ *)
 (** * Geometry *)
 
-Lemma triples_flatten g pts : triples g = Ok pts -> flatten3 pts = g.
+Lemma triples_flatten_n n : forall g pts, (List.length g <= n)%nat -> triples g = Ok pts -> flatten3 pts = g.
 Proof.
-  revert pts. induction g as [g IH] using (well_founded_induction (wf_inverse_image _ nat _ (@List.length Q) PeanoNat.Nat.lt_wf_0)).
-  intros pts H. destruct g as [|x [|y [|z r]]]; simpl in H; try discriminate.
-  - injection H as <-. reflexivity.
-  - apply obind_ok in H. destruct H as [t [Ht H]]. injection H as <-. simpl. f_equal. f_equal. f_equal.
-    apply IH; [simpl; lia | exact Ht].
+  induction n as [|n IH]; intros g pts L H.
+  - destruct g; [|simpl in L; lia]. simpl in H. injection H as <-. reflexivity.
+  - destruct g as [|x [|y [|z r]]]; simpl in H; try discriminate.
+    + injection H as <-. reflexivity.
+    + apply obind_ok in H. destruct H as [t [Ht H]]. injection H as <-. simpl. f_equal. f_equal. f_equal.
+      apply IH; [simpl in L; lia | exact Ht].
 Qed.
+Lemma triples_flatten g pts : triples g = Ok pts -> flatten3 pts = g.
+Proof. apply (triples_flatten_n (List.length g)). lia. Qed.
 
 Lemma flatten_triples pts : triples (flatten3 pts) = Ok pts.
 Proof. induction pts as [|[[x y] z] pts IH]; simpl; [reflexivity|]. rewrite IH. reflexivity. Qed.
@@ -161,7 +164,7 @@ Proof.
   apply obind_ok in H. destruct H as [[[seps frc] frm] [Hf H]].
   apply obind_ok in H. destruct H as [cm [Hc H]].
   destruct (frame_stage r) as [[com ori] sym] eqn:Ef. injection H as <-.
-  exists pts, ros, frc, frm, cm. constructor; simpl; auto.
+  exists pts, ros, frc, frm, cm. constructor; try assumption. rewrite Ef. reflexivity.
 Qed.
 
 (* ------------------------------------------------------------------------------------------ *)
@@ -238,7 +241,7 @@ Lemma np_split_map {A B} (f : A -> B) (l : list A) seps start :
   split_from (map f l) start seps = map (map f) (split_from l start seps).
 Proof.
   assert (S : forall a b, slice (map f l) a b = map f (slice l a b)).
-  { intros a b. unfold slice. rewrite map_length, firstn_map, skipn_map. reflexivity. }
+  { intros a b. unfold slice. rewrite map_length, skipn_map, firstn_map. reflexivity. }
   revert start; induction seps as [|s r IH]; intro start; simpl.
   - rewrite S, map_length. reflexivity.
   - rewrite S, IH. reflexivity.
@@ -273,21 +276,33 @@ Record WF (r : raw) (m : molrec) (pts : list (Q * Q * Q)) (ros : list nuc_out) (
   wf_units : m_units m = "Angstrom"%string \/ m_units m = "Bohr"%string
 }.
 
+Lemma slice_length_eq {A B} (l : list A) (l' : list B) a b :
+  List.length l = List.length l' -> List.length (slice l a b) = List.length (slice l' a b).
+Proof. intro L. rewrite !slice_length. unfold nidx. rewrite L. reflexivity. Qed.
+
+Lemma split_lengths_eq {A B} (l : list A) (l' : list B) seps : List.length l = List.length l' ->
+  forall start, map (@List.length A) (split_from l start seps) = map (@List.length B) (split_from l' start seps).
+Proof.
+  intro L. induction seps as [|s r IH]; intro start; simpl.
+  - rewrite L. f_equal. apply slice_length_eq, L.
+  - f_equal; [apply slice_length_eq, L | apply IH].
+Qed.
+
+Lemma nonempty_by_length {A} (ps : list (list A)) : Forall (fun p => p <> []) ps <-> Forall (fun n => n <> 0%nat) (map (@List.length A) ps).
+Proof.
+  induction ps as [|p ps IH]; simpl; split; intro H; constructor; inversion H; subst.
+  - destruct p; [congruence | simpl; lia].
+  - apply IH; assumption.
+  - destruct p; [simpl in *; congruence | congruence].
+  - apply IH; assumption.
+Qed.
+
 Lemma split_nonempty_transfer {A B} (l : list A) (l' : list B) seps :
   List.length l = List.length l' ->
   Forall (fun p => p <> []) (np_split l seps) -> Forall (fun p => p <> []) (np_split l' seps).
 Proof.
-  intros L H. unfold np_split in *.
-  assert (G : forall start, Forall (fun p : list A => p <> []) (split_from l start seps) ->
-                            Forall (fun p : list B => p <> []) (split_from l' start seps)).
-  { induction seps as [|s r IH]; intros start Hs; simpl in *.
-    - inversion Hs as [|p ps Hp _]; subst. constructor; [|constructor].
-      intro E. apply Hp. apply length_zero_iff_nil. apply (f_equal (@List.length B)) in E.
-      rewrite slice_length in *. unfold nidx in *. rewrite L. simpl in E. rewrite <- L. rewrite <- L in E. exact E.
-    - inversion Hs as [|p ps Hp Hps]; subst. constructor; [|apply IH, Hps].
-      intro E. apply Hp. apply length_zero_iff_nil. apply (f_equal (@List.length B)) in E.
-      rewrite slice_length in *. unfold nidx in *. rewrite L. simpl in E. exact E. }
-  apply G, H.
+  intros L H. unfold np_split in *. apply nonempty_by_length. rewrite <- (split_lengths_eq l l' seps L 0).
+  apply nonempty_by_length, H.
 Qed.
 
 Theorem accepted_invariants r m : from_arrays r = Ok m -> exists pts ros ats, WF r m pts ros ats.
@@ -322,7 +337,7 @@ Proof.
   - exists (cm_input r ros (m_seps m) frc frm). unfold cm_input; simpl.
     assert (W : wf_in (cm_input r ros (m_seps m) frc frm)).
     { unfold wf_in, cm_input; simpl. unfold np_split. rewrite split_length. split; assumption. }
-    repeat split; try reflexivity; try (apply W).
+    split; [reflexivity|]. split; [reflexivity|]. split; [reflexivity|]. split; [reflexivity|]. split; [exact W|].
     pose proof (fill_sound _ _ W (st_cm _ _ _ _ _ _ _ S)) as Sp.
     rewrite Em. simpl. destruct cm. exact Sp.
   - pose proof (st_units _ _ _ _ _ _ _ S) as Hu. unfold units_stage in Hu.
@@ -331,4 +346,437 @@ Proof.
     + apply String.eqb_eq in EA. simpl in Hu. destruct (r_iutau r); [destruct (Qlt_b _ _); [|discriminate]|]; injection Hu as <- _ _; left; exact EA.
     + destruct (String.eqb (capitalize (r_units r)) "Bohr") eqn:EB; [|discriminate].
       apply String.eqb_eq in EB. simpl in Hu. destruct (r_iutau r); [destruct (Qlt_b _ _); [|discriminate]|]; injection Hu as <- _ _; right; exact EB.
+Qed.
+
+(* ------------------------------------------------------------------------------------------ *)
+(** * Refusals: one lemma per malformation *)
+
+Definition atoms_of (r : raw) (n : nat) : list nuc_in :=
+  atoms (r_speclabel r) (r_nonphysical r) (r_mtol r) (map minus1_none (column n (r_elea r))) (column n (r_elez r))
+        (column n (r_elem r)) (column n (r_mass r)) (column n (r_real r)) (column n (r_elbl r)).
+
+Lemma rejects_no_geometry r : r_geom r = [] -> r_minimal r = false -> from_arrays r = Err Validation.
+Proof. intros Hg Hm. unfold from_arrays. rewrite Hg, Hm. reflexivity. Qed.
+
+Lemma accepted_geom r m : from_arrays r = Ok m ->
+  exists pts, triples (r_geom r) = Ok pts /\ too_close (r_tooclose r * r_tooclose r)%Q pts = false /\
+              exists ros, nuclei_stage r (List.length pts) = Ok ros /\
+              exists frc frm, fragments_stage r (List.length pts) = Ok (m_seps m, frc, frm).
+Proof.
+  intro H. destruct (from_arrays_stages _ _ H) as (pts & ros & frc & frm & cm & S).
+  pose proof (st_geom _ _ _ _ _ _ _ S) as Hg. unfold geometry_stage in Hg.
+  apply obind_ok in Hg. destruct Hg as [pts' [Ht Hg]].
+  destruct (too_close _ pts') eqn:Etc; [discriminate|]. injection Hg as ->.
+  exists pts. split; [exact Ht|]. split; [exact Etc|]. exists ros. split; [exact (st_nuc _ _ _ _ _ _ _ S)|].
+  exists frc, frm. exact (st_frag _ _ _ _ _ _ _ S).
+Qed.
+
+Lemma rejects_geom_not_3n r : (List.length (r_geom r) mod 3 <> 0)%nat -> forall m, from_arrays r <> Ok m.
+Proof.
+  intros Hn m H. destruct (accepted_geom _ _ H) as (pts & Ht & _). apply triples_length in Ht.
+  rewrite Ht in Hn. apply Hn. rewrite Nat.mul_comm. apply Nat.mod_mul. discriminate.
+Qed.
+
+Lemma rejects_too_close r pts i j p q :
+  triples (r_geom r) = Ok pts -> (i < j)%nat -> nth_error pts i = Some p -> nth_error pts j = Some q ->
+  (dist2 p q < r_tooclose r * r_tooclose r)%Q -> forall m, from_arrays r <> Ok m.
+Proof.
+  intros Ht Hij Hp Hq Hlt m H. destruct (accepted_geom _ _ H) as (pts' & Ht' & Hc & _).
+  assert (pts' = pts) by congruence. subst pts'.
+  pose proof (too_close_false _ _ Hc i j p q Hij Hp Hq) as Hle. apply (Qlt_not_le _ _ Hlt Hle).
+Qed.
+
+Definition column_given {A} (c : option (list (option A))) (n : nat) : Prop :=
+  match c with Some l => List.length l = n | None => True end.
+
+Lemma column_length {A} n (c : option (list (option A))) : List.length (column n c) = n -> column_given c n.
+Proof. destruct c; simpl; auto. Qed.
+
+(** a supplied per-atom column of the wrong length is refused *)
+Lemma rejects_column_length r pts :
+  triples (r_geom r) = Ok pts ->
+  ~ (column_given (r_elea r) (List.length pts) /\ column_given (r_elez r) (List.length pts) /\
+     column_given (r_elem r) (List.length pts) /\ column_given (r_mass r) (List.length pts) /\
+     column_given (r_real r) (List.length pts) /\ column_given (r_elbl r) (List.length pts)) ->
+  forall m, from_arrays r <> Ok m.
+Proof.
+  intros Ht Hbad m H. destruct (accepted_geom _ _ H) as (pts' & Ht' & _ & ros & Hn & _).
+  assert (pts' = pts) by congruence. subst pts'. apply Hbad. unfold nuclei_stage in Hn.
+  destruct (_ && _) eqn:E; [|discriminate].
+  repeat (apply andb_true_iff in E; destruct E as [E ?]).
+  repeat match goal with [ Hx : Nat.eqb _ _ = true |- _ ] => apply Nat.eqb_eq in Hx end.
+  rewrite map_length in E. repeat split; apply column_length; assumption.
+Qed.
+
+Lemma rejects_unknown_units r :
+  capitalize (r_units r) <> "Angstrom"%string -> capitalize (r_units r) <> "Bohr"%string -> forall m, from_arrays r <> Ok m.
+Proof.
+  intros HA HB m H. destruct (from_arrays_stages _ _ H) as (pts & ros & frc & frm & cm & S).
+  pose proof (st_units _ _ _ _ _ _ _ S) as Hu. unfold units_stage in Hu.
+  apply obind_ok in Hu. destruct Hu as [conn [_ Hu]].
+  apply String.eqb_neq in HA. apply String.eqb_neq in HB. rewrite HA, HB in Hu. discriminate.
+Qed.
+
+Lemma rejects_units_factor r x :
+  r_iutau r = Some x ->
+  ~ (Qabs (x - (if String.eqb (capitalize (r_units r)) "Bohr" then 1 else 1 / bohr2angstroms)) < iutau_window)%Q ->
+  forall m, from_arrays r <> Ok m.
+Proof.
+  intros Hx Hfar m H. destruct (from_arrays_stages _ _ H) as (pts & ros & frc & frm & cm & S).
+  pose proof (st_units _ _ _ _ _ _ _ S) as Hu. unfold units_stage in Hu.
+  apply obind_ok in Hu. destruct Hu as [conn [_ Hu]].
+  destruct (_ || _); [|discriminate]. rewrite Hx in Hu.
+  destruct (Qlt_b _ iutau_window) eqn:E; [|discriminate]. apply Qlt_b_true in E. apply Hfar, E.
+Qed.
+
+(** empty, duplicate, unsorted or out-of-range separators all produce an empty piece in the trial split *)
+Lemma rejects_bad_split r pts seps :
+  triples (r_geom r) = Ok pts -> pts <> [] -> r_seps r = Some seps ->
+  ~ Forall (fun p => p <> []) (np_split (repeat tt (List.length pts)) seps) -> forall m, from_arrays r <> Ok m.
+Proof.
+  intros Ht Hne Hs Hbad m H. destruct (accepted_geom _ _ H) as (pts' & Ht' & _ & ros & _ & frc & frm & Hf).
+  assert (pts' = pts) by congruence. subst pts'.
+  destruct (fragments_stage_ok _ _ _ _ _ Hf) as (_ & _ & Hp & _ & Hsome).
+  rewrite (Hsome _ Hs) in Hp. apply Hbad, Hp. destruct pts; [congruence | simpl; lia].
+Qed.
+
+Lemma rejects_fragment_lengths r pts seps :
+  triples (r_geom r) = Ok pts -> r_seps r = Some seps ->
+  (exists l, r_fchg r = Some l /\ List.length l <> S (List.length seps)) \/
+  (exists l, r_fmult r = Some l /\ List.length l <> S (List.length seps)) ->
+  forall m, from_arrays r <> Ok m.
+Proof.
+  intros Ht Hs Hbad m H. destruct (accepted_geom _ _ H) as (pts' & Ht' & _ & ros & _ & frc & frm & Hf).
+  assert (pts' = pts) by congruence. subst pts'. unfold fragments_stage in Hf. rewrite Hs in Hf.
+  destruct (_ && negb _); [discriminate|]. destruct (negb _); [discriminate|].
+  destruct (Nat.eqb _ _ && Nat.eqb _ _) eqn:E; [|discriminate].
+  apply andb_true_iff in E. destruct E as [E1 E2]. apply Nat.eqb_eq in E1. apply Nat.eqb_eq in E2.
+  destruct Hbad as [[l [Hl Hn]]|[l [Hl Hn]]]; rewrite Hl in *; contradiction.
+Qed.
+
+Lemma rejects_fragment_data_without_separators r :
+  r_seps r = None -> (r_fchg r <> None \/ r_fmult r <> None) -> forall m, from_arrays r <> Ok m.
+Proof.
+  intros Hs Hbad m H. destruct (accepted_geom _ _ H) as (pts & _ & _ & ros & _ & frc & frm & Hf).
+  destruct (fragments_stage_ok _ _ _ _ _ Hf) as (_ & _ & _ & Hnone & _).
+  destruct (Hnone Hs) as (_ & H1 & H2). destruct Hbad; contradiction.
+Qed.
+
+(** contradictory nuclear data on any atom (C06's contradiction forms) *)
+Lemma rejects_conflicting_nuclear_data r pts i :
+  triples (r_geom r) = Ok pts -> In i (atoms_of r (List.length pts)) -> Contradiction i -> forall m, from_arrays r <> Ok m.
+Proof.
+  intros Ht Hin K m H. destruct (accepted_geom _ _ H) as (pts' & Ht' & _ & ros & Hn & _).
+  assert (pts' = pts) by congruence. subst pts'. unfold nuclei_stage in Hn.
+  destruct (_ && _); [|discriminate]. apply mapM_ok in Hn.
+  destruct (Forall2_in_l _ _ _ _ Hn Hin) as [o [_ Ho]]. exact (contradiction_refused _ K _ Ho).
+Qed.
+
+(* ------------------------------------------------------------------------------------------ *)
+(** * Which errors can be raised *)
+
+Lemma closed_units r : closed (units_stage r).
+Proof.
+  unfold units_stage. apply closed_obind.
+  - destruct (r_conn r) as [l|]; [|exact I]. apply closed_obind; [|intros; exact I].
+    apply closed_mapM. intros [[a1 a2] bo]. unfold conn_entry.
+    destruct (a1 <? 0); [left; reflexivity|]. destruct (a2 <? 0); [left; reflexivity|].
+    destruct (_ || _); [left; reflexivity | exact I].
+  - intros conn _. destruct (_ || _); [|left; reflexivity].
+    destruct (r_iutau r); [destruct (Qlt_b _ _); [exact I | left; reflexivity] | exact I].
+Qed.
+
+Lemma triples_total n : forall g, List.length g = (3 * n)%nat -> exists p, triples g = Ok p.
+Proof.
+  induction n as [|n IH]; intros g L.
+  - destruct g; [eexists; reflexivity | simpl in L; lia].
+  - destruct g as [|x [|y [|z r0]]]; simpl in L; try lia.
+    destruct (IH r0 ltac:(lia)) as [p Hp]. simpl. rewrite Hp. eexists. reflexivity.
+Qed.
+
+Lemma triples_err g k : triples g = Err k -> k = PyValueError /\ (List.length g mod 3 <> 0)%nat.
+Proof.
+  intro H. split.
+  - assert (G : forall n g0 k0, (List.length g0 <= n)%nat -> triples g0 = Err k0 -> k0 = PyValueError).
+    { induction n as [|n IH]; intros g0 k0 L E.
+      - destruct g0; [discriminate | simpl in L; lia].
+      - destruct g0 as [|x [|y [|z r0]]]; simpl in E; try congruence.
+        destruct (triples r0) as [t|k1] eqn:Et; simpl in E; [discriminate|]. injection E as <-.
+        apply (IH r0 k1); [simpl in L; lia | exact Et]. }
+    apply (G (List.length g) g k (le_n _) H).
+  - intro M. apply Nat.div_exact in M; [|discriminate]. destruct (triples_total _ g M) as [p Hp]. congruence.
+Qed.
+
+(** from_arrays raises ValidationError or NotAnElementError — or numpy's ValueError, and that only for a
+    geometry whose length is not a multiple of three (known finding C04-geom-not-3n-valueerror). *)
+Theorem from_arrays_errors r :
+  match from_arrays r with
+  | Ok _ => True
+  | Err k => k = Validation \/ k = NotAnElement \/ (k = PyValueError /\ (List.length (r_geom r) mod 3 <> 0)%nat)
+  end.
+Proof.
+  unfold from_arrays. destruct (_ && negb _); [left; reflexivity|].
+  pose proof (closed_units r) as Cu. destruct (units_stage r) as [[[u iu] conn]|k]; [|cbn [obind]; destruct Cu; auto].
+  cbn [obind]. unfold geometry_stage.
+  destruct (triples (r_geom r)) as [pts|k] eqn:Et; [|right; right; apply triples_err, Et].
+  cbn [obind]. destruct (too_close _ pts); [left; reflexivity|]. cbn [obind].
+  match goal with |- match ?X with _ => _ end => assert (C : closed X); [|destruct X; [exact I | destruct C; auto]] end.
+  apply closed_obind.
+  - unfold nuclei_stage. destruct (_ && _); [|left; reflexivity]. apply closed_mapM. intro x. apply reconcile_closed.
+  - intros ros _. apply closed_obind.
+    + unfold fragments_stage. destruct (r_seps r).
+      * destruct (_ && negb _); [left; reflexivity|]. destruct (negb _); [left; reflexivity|].
+        destruct (_ && _); [exact I | left; reflexivity].
+      * destruct (r_fchg r), (r_fmult r); simpl; auto.
+    + intros [[seps frc] frm] _. apply closed_obind.
+      * destruct (fill_fails_closed (cm_input r ros seps frc frm)) as [E|[x E]]; rewrite E; simpl; auto.
+      * intros cm _. destruct (frame_stage r) as [[? ?] ?]. exact I.
+Qed.
+
+(* ------------------------------------------------------------------------------------------ *)
+(** * Sorting (connectivity canonical form) *)
+
+Section Sort.
+  Variable A : Type.
+  Variable leb : A -> A -> bool.
+  Hypothesis leb_total : forall x y, leb x y = false -> leb y x = true.
+
+  Inductive sorted : list A -> Prop :=
+  | s_nil : sorted []
+  | s_one x : sorted [x]
+  | s_cons x y l : leb x y = true -> sorted (y :: l) -> sorted (x :: y :: l).
+
+  Lemma insert_sorted x l : sorted l -> sorted (insert_by leb x l).
+  Proof.
+    induction 1 as [|y|y z l Hyz Hs IH]; simpl.
+    - constructor.
+    - destruct (leb x y) eqn:E; [constructor; [exact E | constructor] | constructor; [apply leb_total, E | constructor]].
+    - destruct (leb x y) eqn:E; [constructor; [exact E | constructor; assumption]|].
+      simpl in IH. destruct (leb x z) eqn:E2.
+      + constructor; [apply leb_total, E | exact IH].
+      + constructor; [exact Hyz | exact IH].
+  Qed.
+
+  Lemma sort_sorted l : sorted (sort_by leb l).
+  Proof. induction l as [|x l IH]; simpl; [constructor | apply insert_sorted, IH]. Qed.
+
+  Lemma sort_of_sorted l : sorted l -> sort_by leb l = l.
+  Proof.
+    induction 1 as [|y|y z l Hyz Hs IH]; simpl; try reflexivity.
+    simpl in IH. rewrite IH. simpl. rewrite Hyz. reflexivity.
+  Qed.
+
+  Lemma in_insert x y l : In y (insert_by leb x l) <-> y = x \/ In y l.
+  Proof.
+    induction l as [|z l IH]; simpl; [intuition|]. destruct (leb x z); simpl; [intuition|]. rewrite IH. intuition.
+  Qed.
+
+  Lemma in_sort y l : In y (sort_by leb l) <-> In y l.
+  Proof. induction l as [|x l IH]; simpl; [reflexivity|]. rewrite in_insert, IH. intuition. Qed.
+End Sort.
+
+Lemma conn_leb_total x y : conn_leb x y = false -> conn_leb y x = true.
+Proof.
+  destruct x as [[a1 a2] b], y as [[c1 c2] d]. unfold conn_leb.
+  destruct (a1 <? c1) eqn:E1; [discriminate|]. destruct (c1 <? a1) eqn:E2; [reflexivity|].
+  destruct (a2 <? c2) eqn:E3; [discriminate|]. destruct (c2 <? a2) eqn:E4; [reflexivity|].
+  intro H. apply Qle_bool_iff. apply Qlt_le_weak. apply Qnot_le_lt. intro L. apply Qle_bool_iff in L. congruence.
+Qed.
+
+Lemma mapM_id {A} (f : A -> outcome A) l : (forall y, In y l -> f y = Ok y) -> mapM f l = Ok l.
+Proof.
+  induction l as [|x l IH]; intro H; simpl; [reflexivity|].
+  rewrite (H x (or_introl eq_refl)). simpl. rewrite IH; [reflexivity|]. intros y Hy. apply H. right. exact Hy.
+Qed.
+
+Lemma conn_entry_canon e y : conn_entry e = Ok y -> conn_entry y = Ok y.
+Proof.
+  destruct e as [[a1 a2] bo]. unfold conn_entry.
+  destruct (a1 <? 0) eqn:E1; [discriminate|]. destruct (a2 <? 0) eqn:E2; [discriminate|].
+  destruct (_ || _) eqn:E3; [discriminate|]. intro H. injection H as <-.
+  apply Z.ltb_ge in E1. apply Z.ltb_ge in E2.
+  replace (Z.min a1 a2 <? 0) with false by (symmetry; apply Z.ltb_ge; lia).
+  replace (Z.max a1 a2 <? 0) with false by (symmetry; apply Z.ltb_ge; lia). rewrite E3.
+  f_equal. f_equal. f_equal; lia.
+Qed.
+
+(* ------------------------------------------------------------------------------------------ *)
+(** * Feeding an accepted record back *)
+
+Record molrec_equiv (a b : molrec) : Prop := {
+  e_units : m_units a = m_units b; e_iutau : m_iutau a = m_iutau b; e_geom : m_geom a = m_geom b;
+  e_elea : m_elea a = m_elea b; e_elez : m_elez a = m_elez b; e_elem : m_elem a = m_elem b;
+  e_mass : Forall2 Qeq (m_mass a) (m_mass b);
+  e_real : m_real a = m_real b; e_elbl : m_elbl a = m_elbl b; e_seps : m_seps a = m_seps b;
+  e_fchg : m_fchg a = m_fchg b; e_fmult : m_fmult a = m_fmult b; e_chg : m_chg a = m_chg b; e_mult : m_mult a = m_mult b;
+  e_com : m_fix_com a = m_fix_com b; e_ori : m_fix_orientation a = m_fix_orientation b;
+  e_sym : m_fix_symmetry a = m_fix_symmetry b; e_conn : m_conn a = m_conn b }.
+
+Lemma units_again r m u iu conn :
+  units_stage r = Ok (u, iu, conn) -> m_units m = u -> m_iutau m = iu -> m_conn m = conn ->
+  units_stage (as_raw r m) = Ok (u, iu, conn).
+Proof.
+  intros H Eu Ei Ec. unfold units_stage in *. unfold as_raw; cbn [r_conn r_units r_iutau]. rewrite Eu, Ei, Ec.
+  apply obind_ok in H. destruct H as [conn0 [Hc H]].
+  assert (Hu : (capitalize (r_units r) = "Angstrom"%string \/ capitalize (r_units r) = "Bohr"%string) /\ u = capitalize (r_units r) /\ conn0 = conn /\ iu = r_iutau r).
+  { destruct (String.eqb (capitalize (r_units r)) "Angstrom") eqn:EA; [|destruct (String.eqb (capitalize (r_units r)) "Bohr") eqn:EB; [|discriminate]]; simpl in H;
+      (destruct (r_iutau r); [destruct (Qlt_b _ _); [|discriminate]|]); injection H as <- <- <-;
+      (split; [|repeat split; reflexivity]); [left; apply String.eqb_eq, EA | left; apply String.eqb_eq, EA | right; apply String.eqb_eq, EB | right; apply String.eqb_eq, EB]. }
+  destruct Hu as (Hcases & -> & -> & ->).
+  assert (Hcap : capitalize (capitalize (r_units r)) = capitalize (r_units r)) by (destruct Hcases as [-> | ->]; reflexivity).
+  rewrite Hcap.
+  assert (Hconn : match conn with
+                  | None => Ok None
+                  | Some l => obind (mapM conn_entry l) (fun c => Ok (Some (sort_by conn_leb c)))
+                  end = Ok conn).
+  { destruct (r_conn r) as [l|]; simpl in Hc.
+    - apply obind_ok in Hc. destruct Hc as [c0 [Hm Hc]]. injection Hc as <-.
+      rewrite (mapM_id conn_entry).
+      + simpl. rewrite (sort_of_sorted _ conn_leb); [reflexivity|]. apply sort_sorted, conn_leb_total.
+      + intros y Hy. apply in_sort in Hy. apply mapM_ok in Hm.
+        destruct (Forall2_in_r _ _ _ _ Hm Hy) as [e [_ He]]. apply (conn_entry_canon _ _ He).
+    - injection Hc as <-. reflexivity. }
+  rewrite Hconn. cbn [obind]. exact H.
+Qed.
+
+Definition fb (np : bool) (tol : Q) (o : nuc_out) : nuc_in :=
+  {| nA := if oA o =? -1 then None else Some (oA o); nZ := Some (oZ o); nE := Some (oE o); nmass := Some (omass o);
+     nreal := Some (oreal o); nlabel := Some (ouser o); speclabel := false; nonphysical := np; mtol := tol |}.
+
+Lemma atoms_fb np tol ros :
+  atoms false np tol (map minus1_none (map Some (map oA ros))) (map Some (map oZ ros)) (map Some (map oE ros))
+        (map Some (map omass ros)) (map Some (map oreal ros)) (map Some (map ouser ros)) = map (fb np tol) ros.
+Proof. induction ros as [|o ros IH]; simpl; [reflexivity|]. rewrite IH. reflexivity. Qed.
+
+Lemma nuclei_again np tol ats ros :
+  (0 <= tol)%Q -> (tol <= 1 # 4)%Q ->
+  Forall2 (fun i o => reconcile i = Ok o) ats ros ->
+  Forall (fun i => nonphysical i = np /\ mtol i = tol) ats ->
+  exists ros', mapM reconcile (map (fb np tol) ros) = Ok ros' /\ Forall2 out_equiv ros' ros.
+Proof.
+  intros T0 T4 H. induction H as [|i o ats ros Hio _ IH]; intro Hs.
+  - exists []. split; [reflexivity | constructor].
+  - inversion Hs as [|? ? [Hnp Hmt] Hs']; subst.
+    destruct (IH Hs') as [ros' [Hm Hq]].
+    destruct (feedback_fixed_point i o Hio T0 T4) as [o' [Ho' Heq]].
+    exists (o' :: ros'). split; [|constructor; assumption].
+    simpl. change (fb (nonphysical i) (mtol i) o) with (feedback i o). rewrite Ho'. simpl. rewrite Hm. reflexivity.
+Qed.
+
+Lemma equiv_maps ros' ros : Forall2 out_equiv ros' ros ->
+  map oA ros' = map oA ros /\ map oZ ros' = map oZ ros /\ map oE ros' = map oE ros /\ Forall2 Qeq (map omass ros') (map omass ros) /\
+  map oreal ros' = map oreal ros /\ map ouser ros' = map ouser ros /\ zeff ros' = zeff ros /\ List.length ros' = List.length ros.
+Proof.
+  induction 1 as [|a b l l' Hab _ IH]; simpl; [repeat split; constructor|].
+  destruct IH as (I1 & I2 & I3 & I4 & I5 & I6 & I7 & I8). destruct Hab as [HA HZ HE HM HR HU].
+  unfold zeff in *. simpl. repeat split; try (f_equal; assumption); try (constructor; assumption).
+  rewrite HR, HZ. f_equal. exact I7.
+Qed.
+
+Definition frag_checks (n : nat) (seps : list Z) : bool :=
+  negb (existsb (fun p => Nat.eqb (List.length p) 0) (np_split (repeat tt n) seps) && negb (Nat.eqb n 0))
+  && Nat.eqb (fold_right Nat.add 0%nat (map (@List.length unit) (np_split (repeat tt n) seps))) n.
+
+Lemma fragments_checks r n seps frc frm : fragments_stage r n = Ok (seps, frc, frm) -> frag_checks n seps = true.
+Proof.
+  unfold fragments_stage, frag_checks. destruct (r_seps r) as [s|].
+  - destruct (existsb _ _ && negb (Nat.eqb n 0)) eqn:E1; [discriminate|].
+    destruct (negb (Nat.eqb _ n)) eqn:E2; [discriminate|].
+    destruct (Nat.eqb _ _ && Nat.eqb _ _); [|discriminate]. intro H. injection H as <- _ _.
+    rewrite E1. apply negb_false_iff in E2. rewrite E2. reflexivity.
+  - destruct (r_fchg r), (r_fmult r); try discriminate. intro H. injection H as <- _ _.
+    unfold np_split. cbn [split_from existsb map fold_right].
+    assert (L : List.length (slice (repeat tt n) 0 (Z.of_nat (List.length (repeat tt n)))) = n).
+    { rewrite slice_length, nidx_0, nidx_len, repeat_length. lia. }
+    rewrite L. rewrite Nat.add_0_r, Nat.eqb_refl, orb_false_r. destruct (Nat.eqb n 0); reflexivity.
+Qed.
+
+Lemma from_arrays_intro r u iu conn pts ros seps frc frm cm com ori sym :
+  is_nil (r_geom r) && negb (r_minimal r) = false ->
+  units_stage r = Ok (u, iu, conn) -> geometry_stage r = Ok pts -> nuclei_stage r (List.length pts) = Ok ros ->
+  fragments_stage r (List.length pts) = Ok (seps, frc, frm) -> fill (cm_input r ros seps frc frm) = Ok cm ->
+  frame_stage r = (com, ori, sym) ->
+  from_arrays r = Ok {| m_units := u; m_iutau := iu; m_geom := flatten3 pts;
+        m_elea := map oA ros; m_elez := map oZ ros; m_elem := map oE ros; m_mass := map omass ros;
+        m_real := map oreal ros; m_elbl := map ouser ros;
+        m_seps := seps; m_fchg := ofc cm; m_fmult := ofm cm; m_chg := oc cm; m_mult := om cm;
+        m_fix_com := com; m_fix_orientation := ori; m_fix_symmetry := sym; m_conn := conn |}.
+Proof.
+  intros H0 H1 H2 H3 H4 H5 H6. unfold from_arrays. rewrite H0, H1. cbn [obind]. rewrite H2. cbn [obind].
+  rewrite H3. cbn [obind]. rewrite H4. cbn [obind]. rewrite H5. cbn [obind]. rewrite H6. reflexivity.
+Qed.
+
+(** A record accepted by from_arrays, fed back with the same processing settings (labels as user tags), is
+    accepted again and reproduced (masses up to equality of rationals), for tolerances 0 <= mtol <= 1/4. *)
+Theorem idempotent r m :
+  from_arrays r = Ok m -> (0 <= r_mtol r)%Q -> (r_mtol r <= 1 # 4)%Q ->
+  exists m', from_arrays (as_raw r m) = Ok m' /\ molrec_equiv m' m.
+Proof.
+  intros H T0 T4. destruct (from_arrays_stages _ _ H) as (pts & ros & frc & frm & cm & Stg).
+  pose proof (st_rec _ _ _ _ _ _ _ Stg) as Em.
+  assert (Egeom : m_geom m = flatten3 pts) by (rewrite Em; reflexivity).
+  assert (Eelea : m_elea m = map oA ros) by (rewrite Em; reflexivity).
+  assert (Eelez : m_elez m = map oZ ros) by (rewrite Em; reflexivity).
+  assert (Eelem : m_elem m = map oE ros) by (rewrite Em; reflexivity).
+  assert (Emass : m_mass m = map omass ros) by (rewrite Em; reflexivity).
+  assert (Ereal : m_real m = map oreal ros) by (rewrite Em; reflexivity).
+  assert (Eelbl : m_elbl m = map ouser ros) by (rewrite Em; reflexivity).
+  assert (Efchg : m_fchg m = ofc cm) by (rewrite Em; reflexivity).
+  assert (Efmult : m_fmult m = ofm cm) by (rewrite Em; reflexivity).
+  assert (Echg : m_chg m = oc cm) by (rewrite Em; reflexivity).
+  assert (Emult : m_mult m = om cm) by (rewrite Em; reflexivity).
+  assert (Ecom : m_fix_com m = fst (fst (frame_stage r))) by (rewrite Em; reflexivity).
+  assert (Eori : m_fix_orientation m = snd (fst (frame_stage r))) by (rewrite Em; reflexivity).
+  assert (Esym : m_fix_symmetry m = snd (frame_stage r)) by (rewrite Em; reflexivity).
+  clear Em.
+  (* geometry *)
+  pose proof (st_geom _ _ _ _ _ _ _ Stg) as Hg. unfold geometry_stage in Hg.
+  apply obind_ok in Hg. destruct Hg as [pts' [Ht Hg]].
+  destruct (too_close _ pts') eqn:Etc; [discriminate|]. injection Hg as ->.
+  assert (G2 : geometry_stage (as_raw r m) = Ok pts).
+  { unfold geometry_stage, as_raw; cbn [r_geom r_tooclose]. rewrite Egeom, flatten_triples. cbn [obind].
+    rewrite Etc. reflexivity. }
+  (* units *)
+  pose proof (units_again r m _ _ _ (st_units _ _ _ _ _ _ _ Stg) eq_refl eq_refl eq_refl) as U2.
+  (* nuclei *)
+  destruct (nuclei_stage_ok _ _ _ (st_nuc _ _ _ _ _ _ _ Stg)) as [Lr (ats & La & Hrec & Hset)].
+  assert (Hset' : Forall (fun i => nonphysical i = r_nonphysical r /\ mtol i = r_mtol r) ats).
+  { clear - Hset. induction Hset as [|i l [H1 [H2 _]] _ IH]; constructor; auto. }
+  destruct (nuclei_again _ _ _ _ T0 T4 Hrec Hset') as [ros' [Hm' Hq]].
+  destruct (equiv_maps _ _ Hq) as (QA & QZ & QE & QM & QR & QU & Qzeff & QL).
+  assert (N2 : nuclei_stage (as_raw r m) (List.length pts) = Ok ros').
+  { unfold nuclei_stage, as_raw; cbn [r_elea r_elez r_elem r_mass r_real r_elbl r_speclabel r_nonphysical r_mtol column].
+    rewrite Eelea, Eelez, Eelem, Emass, Ereal, Eelbl.
+    rewrite !map_length, Lr, Nat.eqb_refl. cbn [andb]. rewrite atoms_fb. exact Hm'. }
+  (* fragments *)
+  pose proof (st_frag _ _ _ _ _ _ _ Stg) as Hf.
+  pose proof (fragments_checks _ _ _ _ _ Hf) as Hck.
+  destruct (fragments_stage_ok _ _ _ _ _ Hf) as (Lc & Lm & _).
+  set (i0 := cm_input r ros (m_seps m) frc frm).
+  assert (W : wf_in i0) by (unfold wf_in, i0, cm_input; simpl; unfold np_split; rewrite split_length; split; assumption).
+  pose proof (fill_sound _ _ W (st_cm _ _ _ _ _ _ _ Stg)) as Sp.
+  assert (Lfc : List.length (ofc cm) = Datatypes.S (List.length (m_seps m))).
+  { rewrite (sp_len_fc _ _ Sp). unfold adjust. destruct (_ && _); simpl; unfold np_split; apply split_length. }
+  assert (Lfm : List.length (ofm cm) = Datatypes.S (List.length (m_seps m))).
+  { rewrite (sp_len_fm _ _ Sp). unfold adjust. destruct (_ && _); simpl; unfold np_split; apply split_length. }
+  assert (F2 : fragments_stage (as_raw r m) (List.length pts) = Ok (m_seps m, map Some (ofc cm), map Some (ofm cm))).
+  { unfold fragments_stage, as_raw; cbn [r_seps r_fchg r_fmult]. rewrite Efchg, Efmult.
+    unfold frag_checks in Hck. apply andb_true_iff in Hck. destruct Hck as [C1 C2]. apply negb_true_iff in C1.
+    rewrite C1, C2. cbn [negb]. rewrite !map_length, Lfc, Lfm, Nat.eqb_refl. reflexivity. }
+  (* charges and multiplicities: C05's fixed point *)
+  assert (C2 : fill (cm_input (as_raw r m) ros' (m_seps m) (map Some (ofc cm)) (map Some (ofm cm))) = Ok cm).
+  { unfold cm_input, as_raw; cbn [r_chg r_mult r_zgf]. rewrite Qzeff, Echg, Emult.
+    apply (fill_fixed_point i0 cm W (st_cm _ _ _ _ _ _ _ Stg)). }
+  (* frame *)
+  destruct (frame_stage r) as [[com ori] sym] eqn:Ef. cbn [fst snd] in Ecom, Eori, Esym.
+  assert (R2 : frame_stage (as_raw r m) = (com, ori, sym)).
+  { unfold frame_stage in *. unfold as_raw; cbn [r_fix_com r_fix_orientation r_fix_symmetry].
+    rewrite Ecom, Eori, Esym. injection Ef as E1 E2 E3. f_equal.
+    destruct (r_fix_symmetry r) as [s|]; [|subst sym; reflexivity].
+    destruct (String.eqb (lower s) "") eqn:Es; subst sym; [reflexivity|]. rewrite lower_idem, Es. reflexivity. }
+  assert (Z2 : is_nil (r_geom (as_raw r m)) && negb (r_minimal (as_raw r m)) = false) by (unfold as_raw; cbn; apply andb_false_r).
+  eexists. split.
+  - apply (from_arrays_intro (as_raw r m) _ _ _ pts ros' (m_seps m) _ _ cm com ori sym Z2 U2 G2 N2 F2 C2 R2).
+  - constructor; cbn [m_units m_iutau m_geom m_elea m_elez m_elem m_mass m_real m_elbl m_seps m_fchg m_fmult m_chg m_mult
+                       m_fix_com m_fix_orientation m_fix_symmetry m_conn]; try congruence; auto.
 Qed.
